@@ -49,6 +49,9 @@ CHECKS = {
  "C17": ("E4-word-enumerator", "exhaustive enumeration of all ordered (base, IRI) pairs of a generated IRI set x all parent-step limits, each answer resolved back through the real resolver",
          "Every ordered pair of a structured IRI universe (authority/no authority, rooted/rootless/empty paths, empty and dot segments, ':' in segments, multi-byte characters, queries and fragments containing '/' and '?') is relativised under 5 parent-step limits; every returned reference is validated, resolved back and its parent steps counted; None is rejected only where the property promises a reference.",
          "Small-scope hypothesis (<= 2/3 path segments over an 8-segment alphabet); inverse taken w.r.t. the toolkit's resolver.", "DESIGN.md §4 C17"),
+ "C18": ("E4-word-enumerator", "exhaustive enumeration of literal texts up to a length over an XML-oriented alphabet x literal kinds, predicate IRIs over all namespace split shapes, small graphs, x indentations 0..8, in crash-attributing workers; independent XML well-formedness recogniser + isomorphism oracle",
+         "Every enumerated graph either makes the serializer fail or yields a document that an independent XML 1.0 recogniser accepts and that parses back (toolkit parser) to a graph isomorphic to the expressible part, identically for every indentation; graphs with XML-legal text and QName-able predicates must be accepted.",
+         "Independent recogniser in model/xmlwf.rs; the toolkit's RDF/XML reader (third-party rio_xml) reads the output; length bounds.", "DESIGN.md §4 C18"),
  "C19": ("E4-word-enumerator", "exhaustive enumeration of IRIs (all segment sequences up to a length over a traversal-oriented alphabet) x namespace/directory configurations, with a cfg-hook log of every path handed to the file system",
          "Every valid IRI built from 5 namespaces x paths of bounded length over dot segments, empty segments, encoded dots and slashes, sibling names and absolute paths, with and without extension/fragment/query, is loaded directly and as a followed link under 4 configurations; every path probed (including failed content-negotiation retries) must lie inside a directory whose namespace prefixes the IRI, and no marker content from outside may be returned.",
          "Real file system in a temporary tree; no symlinks; path alphabet and length bound.", "DESIGN.md §4 C19"),
